@@ -98,7 +98,7 @@ func init() {
 			"number vs string pairs are asserted for every number below 1e15 in magnitude; the decimal text is the plain positional one (1000000, 0.0000001), never an exponent form",
 		},
 		MinNontrivial: 1000,
-		Floor:         []string{"num-num.same-type", "num-num.mixed-type", "num-num.signed-unsigned", "num-num.int-float", "str-str", "num-str", "str-num", "triple.num", "triple.str", "sql.where", "sql.where.twin-constant", "sql.in", "sql.in.long", "sql.between", "sql.order", "sql.order.second-key", "sql.order.num-str", "sql.join.hash", "sql.join.loop", "sql.join.mixed-type", "sql.join.num-str"},
+		Floor:         []string{"num-num.same-type", "num-num.mixed-type", "num-num.signed-unsigned", "num-num.int-float", "str-str", "num-str", "str-num", "triple.num", "triple.str", "sql.where", "sql.where.twin-constant", "sql.in", "sql.in.long", "sql.between", "sql.order", "sql.order.second-key", "sql.order.num-str", "sql.join.hash", "sql.join.loop", "sql.join.mixed-type", "sql.join.num-str", "sql.where.computed-operand", "sql.order.long", "sql.order.long.strings", "sql.join.three-tables"},
 		Phases: []fw.Phase{
 			{Name: "pairs", N: func(t fw.Tier) int { return nPairs() }, Run: c15Pair, Batch: 0},
 			{Name: "sql", N: func(t fw.Tier) int { return pick(t, 1200, 20000) }, Run: c15SQL},
@@ -301,7 +301,6 @@ func c15Triples(c *fw.Case) {
 	c.Nontrivial("t|" + show15(a) + "|" + show15(b))
 }
 
-
 // c15SQLDomain: values at which the decimal text, the value comparison and the
 // join key fingerprint are all defined and must agree.
 var c15SQLNums = []any{int(1), int8(1), uint(1), float64(1), uint8(200), float64(200), int16(200), float32(2), int64(2), uint64(3), int32(3), float64(1.5), float32(1.5), int(-1), float64(-1), int8(-1),
@@ -352,6 +351,33 @@ func c15SQL(c *fw.Case) {
 	keyOf := func(r any) any { return r.(map[string]any)["k"] }
 	switch kind {
 	case 0: // WHERE
+		if c.Chance(0.3) {
+			// one operand is computed: doubles that differ in their last bits
+			// are different numbers for every operator
+			pool := []float64{0.1 + 0.2, 0.3, 0.1, 0.2, 0.7, 0.7000000000000001, 4503599627370498, 4503599627370499, 4503599627370497, 1e15 + 0.5, 1e15 + 0.625, -0.3, -(0.1 + 0.2)}
+			rows := make([]any, 3+c.Intn(8))
+			for i := range rows {
+				rows[i] = map[string]any{"id": float64(i), "k": pool[c.Intn(len(pool))]}
+			}
+			lit := pool[c.Intn(len(pool))]
+			op := []string{"=", "<", ">=", "!=", "<=", ">"}[c.Intn(6)]
+			lhs := gen.Pick(c.R, []string{"k * 1", "k + 0", "(k - 0)", "k / 1", "1 * k"})
+			sql := fmt.Sprintf("SELECT id FROM lt WHERE %s %s %s", lhs, op, strconv.FormatFloat(lit, 'f', -1, 64))
+			if c.Chance(0.3) {
+				sql = fmt.Sprintf("SELECT id FROM lt WHERE %s %s %s", strconv.FormatFloat(lit, 'f', -1, 64), op, lhs)
+				op = map[string]string{"=": "=", "!=": "!=", "<": ">", ">": "<", "<=": ">=", ">=": "<="}[op]
+			}
+			var want []any
+			for _, r := range rows {
+				k := r.(map[string]any)["k"].(float64)
+				if map[string]bool{"=": k == lit, "<": k < lit, ">=": k >= lit, "!=": k != lit, "<=": k <= lit, ">": k > lit}[op] {
+					want = append(want, r.(map[string]any)["id"])
+				}
+			}
+			c.Feature("sql.where", "sql.where.computed-operand")
+			c15SQLCheck(c, map[string]any{"lt": rows}, sql, want, "id", false)
+			return
+		}
 		lit := c15SQLNums[c.Intn(len(c15SQLNums))]
 		op := []string{"=", "<", ">=", "!=", "<=", ">"}[c.Intn(6)]
 		sql := fmt.Sprintf("SELECT id FROM lt WHERE k %s %v", op, lit)
@@ -465,7 +491,18 @@ func c15SQL(c *fw.Case) {
 		c15SQLCheck(c, doc(), sql, want, "id", false)
 	case 2: // ORDER BY (numbers only: a total order there)
 		lt = mk(3+c.Intn(8), false)
-		if c.Chance(0.4) {
+		if c.Chance(0.3) {
+			// a long result: whatever path large sorts take, the order is the same
+			lt = mk(33+c.Intn(40), false)
+			c.Feature("sql.order.long")
+			if c.Chance(0.6) {
+				// strings only, numeric-looking ones among them: byte-wise order
+				for _, r := range lt {
+					r.(map[string]any)["k"] = gen.Pick(c.R, []any{"9", "10", "100", "2", "-1", "1e3", "05", "5", "50", "abc", "A", "a", "", " 7", "7 ", "١"})
+				}
+				c.Feature("sql.order.long.strings")
+			}
+		} else if c.Chance(0.4) {
 			// strings that begin with a letter sort after every number's decimal
 			// text (digits and the minus sign come before letters): together
 			// with the numbers they still form one total order
@@ -528,6 +565,13 @@ func c15SQL(c *fw.Case) {
 			feat = "sql.join.loop"
 		}
 		sql := "SELECT x.id AS l, y.id AS r FROM lt x " + jn + " rt y ON " + on
+		if c.Chance(0.2) {
+			// the left side is itself a join: its columns are compared by
+			// value inside BETWEEN and NOT like anywhere else
+			on3 := gen.Pick(c.R, []string{"z.k BETWEEN y.k AND y.k", "x.k BETWEEN y.k AND y.k", "NOT (x.k < y.k) AND NOT (x.k > y.k)", "NOT (x.k != y.k)", "x.k = y.k AND z.k BETWEEN y.k AND y.k"})
+			sql = "SELECT x.id AS l, y.id AS r FROM lt x JOIN lt z ON x.id = z.id " + jn + " rt y ON " + on3
+			feat = "sql.join.three-tables"
+		}
 		var want []any
 		for _, l := range lt {
 			for _, r := range rt {
